@@ -1,10 +1,18 @@
 import runner as R
 from props import *
 import C04_more
+import os, sys
+sys.path.insert(0, os.path.dirname(os.path.dirname(os.path.abspath(__file__))))
+import kernel_part
+
+LEAN_MODULES = ['C01'] + kernel_part.LEAN_MODULES
 
 MANIFEST = dict(
     text="Proved in Lean for every raw producer script (legal or not): the subscriber/observer gate delivers a Grammar-conforming prefix and delivered++dropped = raw "
          "(kernel_grammar, kernel_partition); for every operator machine and chain, both source modes, the final trace obeys the grammar (operator_grammar, chain_grammar). "
+         "(b) concurrent kernel: for safe and eventually-safe subscribers, any number of producer goroutines and any schedule, the callback-begin subsequence obeys the grammar "
+         "(kernel_grammar_concurrent; unsafe mode under a single producer), over the subscriber/subscription programs that are regenerated from subscriber.go / subscription.go / observer.go and decided equal to the expected ones on every run. "
+         "(c) subjects: every subscriber's trace obeys the grammar (C10.subscriber_grammar). "
          "Tie: every catalogue operator's machine is run against the real operator on exhaustive/seeded raw scripts incl. illegal suffixes (kinds + drops compared), plus a direct Grammar oracle on the implementation trace.",
     technique="Lean 4 proof (induction over raw scripts, gate lemmas) + differential correspondence of the executable model against the implementation",
     ref='5/C01')
@@ -16,7 +24,8 @@ def check(ctx):
     rows = R.run_kind(ctx, 'chains')
     R.compare(ctx, rows, proj_grammar, 'C01 grammar/drops through chains', oracle=oracle_grammar, oracle_is_property=True, nontrivial=lambda c, gd: gd.get('trace', '-') != '-')
     C04_more.parts_C01(ctx)
-    return dict(rule='random chains of 2-5 int->int operators (sync/hot, cuts) + ' + 'every catalogue operator x parameters x variants x raw scripts (exhaustive to length 2/3 over {-1,0,2,3}, three endings, '
+    k = kernel_part.parts(ctx) or {}
+    return dict(search=k.get('search'), assumptions=k.get('assumptions'), extra=k.get('extra'), rule=(k.get('rule', '') + '; ' if k.get('rule') else '') + 'random chains of 2-5 int->int operators (sync/hot, cuts) + ' + 'every catalogue operator x parameters x variants x raw scripts (exhaustive to length 2/3 over {-1,0,2,3}, three endings, '
                      'illegal suffixes N/C/E after the terminal, seeded longer scripts) x {sync, hot} source x external cut; '
                      'compared: kinds of delivered notifications + multiset of dropped notifications; oracle: Grammar on the implementation trace; '
                      'non-trivial = script has a value and something was delivered or dropped')
